@@ -40,7 +40,7 @@ pub enum SeedSpec {
     /// muxer output with samples whose moov also announces fragments (mvex), followed by
     /// (moof + mdat) pairs that continue the tracks: what "ffmpeg -movflags frag_keyframe" writes
     Hybrid { seed: u64 },
-    /// a valid image in which one box is wrapped in 10..60 000 nested container headers
+    /// a valid image in which one box is wrapped in 10..120 000 nested container headers
     Nest { seed: u64 },
     /// a valid image in which one sample table is replaced by a very long one (10^5 entries) in
     /// ascending, descending, random, constant or zigzag order
@@ -723,15 +723,32 @@ pub fn nest_image(seed: u64) -> Vec<u8> {
     }
     // prefer boxes below the top level (inside moov / moof), they are what parsers descend into
     let deep: Vec<usize> = (0..nodes.len()).filter(|i| nodes[*i].depth >= 1 && !nodes[*i].is(b"mdat")).collect();
-    let ni = if deep.is_empty() { r.usize_below(nodes.len()) } else { deep[r.usize_below(deep.len())] };
+    let mut ni = if deep.is_empty() { r.usize_below(nodes.len()) } else { deep[r.usize_below(deep.len())] };
+    // in a third of the images: a leaf that a parser looks for inside its parent (the spots where
+    // "search the children, descend into wrappers" code lives)
+    let mut spot = false;
+    if r.chance(1, 3) {
+        const LEAVES: [[u8; 4]; 10] = [*b"esds", *b"avcC", *b"hvcC", *b"vpcC", *b"data", *b"hdlr", *b"elst", *b"tfhd", *b"trun", *b"stsd"];
+        let c: Vec<usize> = (0..nodes.len()).filter(|i| LEAVES.contains(&nodes[*i].typ)).collect();
+        if !c.is_empty() {
+            ni = c[r.usize_below(c.len())];
+            spot = true;
+        }
+    }
     let n = &nodes[ni];
     const CONTAINERS: [[u8; 4]; 16] = [*b"wave", *b"udta", *b"meta", *b"moov", *b"trak", *b"mdia", *b"minf", *b"stbl", *b"dinf", *b"edts", *b"moof", *b"traf", *b"mvex", *b"ilst", *b"stsd", *b"mp4a"];
-    let wt: [u8; 4] = match r.below(5) {
-        0 | 1 => n.parent.map(|p| nodes[p].typ).unwrap_or(*b"moov"),
-        2 => n.typ,
-        _ => *r.pick(&CONTAINERS),
+    let ptyp = n.parent.map(|p| nodes[p].typ).unwrap_or(*b"moov");
+    let wt: [u8; 4] = if spot {
+        // the parent's type when that is a plain container, else the QuickTime wrapper
+        if CONTAINERS.contains(&ptyp) && r.chance(2, 3) { ptyp } else { *b"wave" }
+    } else {
+        match r.below(5) {
+            0 | 1 => ptyp,
+            2 => n.typ,
+            _ => *r.pick(&CONTAINERS),
+        }
     };
-    let k = *r.pick(&[10usize, 100, 1000, 5000, 20_000, 60_000]);
+    let k = *r.pick(&[10usize, 1000, 20_000, 60_000, 120_000, 120_000]);
     // meta is a full box: its wrapper carries version/flags
     let hdr = if &wt == b"meta" { 12 } else { 8 };
     let inner = img[n.start..n.end()].to_vec();
